@@ -8,18 +8,22 @@ package moss
 
 // ---- op word (C19) ---------------------------------------------------------
 
-//@ pure func opOf(w uint64) uint64 = ((w / 72057594037927936) % 16) * 72057594037927936
-//@ pure func klOf(w uint64) int = (w / 4294967296) % 16777216
-//@ pure func vlOf(w uint64) int = w % 268435456
+// bits(w, lo, hi) is the bit field (w / 2^lo) % 2^(hi-lo); outside functions
+// marked `attr bits exact` it is uninterpreted (range axiom only).
+//@ pure func opOf(w uint64) uint64 = bits(w, 56, 60) * 72057594037927936
+//@ pure func klOf(w uint64) int = bits(w, 32, 56)
+//@ pure func vlOf(w uint64) int = bits(w, 0, 28)
 
 //@ func encodeOpKeyLenValLen(operation uint64, keyLen, valLen int) uint64
 //@   props C19
+//@   attr bits exact
 //@   requires 0 <= keyLen && keyLen <= maxKeyLength && 0 <= valLen && valLen <= maxValLength
 //@   ensures @roundtrip opOf(result) == opOf(operation) && klOf(result) == keyLen && vlOf(result) == valLen
-//@   ensures @reserved (result / 1152921504606846976) % 16 == 0 && (result / 268435456) % 16 == 0
+//@   ensures @reserved bits(result, 60, 64) == 0 && bits(result, 28, 32) == 0
 
 //@ func decodeOpKeyLenValLen(opklvl uint64) (uint64, int, int)
 //@   props C19
+//@   attr bits exact
 //@   ensures @fields r0 == opOf(opklvl) && r1 == klOf(opklvl) && r2 == vlOf(opklvl)
 //@   ensures @ranges 0 <= r1 && r1 <= maxKeyLength && 0 <= r2 && r2 <= maxValLength
 
@@ -45,3 +49,66 @@ package moss
 //@   requires 0 <= pos && pageSize > 0
 //@   ensures @aligned result % pageSize == 0
 //@   ensures @greatest result <= pos && pos < result + pageSize
+
+// ---- segment representation (C09, C14, C19, C01, C10) ---------------------------
+
+//@ pure func segLen(a *segment) int = len(a.kvs) / 2
+//@ pure opaque func kstart(a *segment, i int) int = a.kvs[2*i+1]
+//@ pure opaque func klen(a *segment, i int) int = klOf(a.kvs[2*i])
+//@ pure opaque func vlen(a *segment, i int) int = vlOf(a.kvs[2*i])
+//@ pure opaque func kop(a *segment, i int) uint64 = opOf(a.kvs[2*i])
+//@ pure opaque func keyRank(a *segment, i int) real = rank(a.buf[kstart(a, i) : kstart(a, i) + klen(a, i)])
+
+// Every entry lies inside buf.
+//@ pure func segValid(a *segment) bool = a != nil && len(a.kvs) % 2 == 0 &&
+//@     (forall i int :: 0 <= i && i < segLen(a) ==> 0 <= kstart(a, i) && kstart(a, i) + klen(a, i) + vlen(a, i) <= len(a.buf))
+// Keys strictly ascending (a sorted segment holds each key once).
+//@ pure func segSorted(a *segment) bool = forall i int, j int :: 0 <= i && i < j && j < segLen(a) ==> keyRank(a, i) < keyRank(a, j)
+
+// The key index of a segment (C14): entry h is the key at position h*hop.
+//@ pure opaque func idxBeg(s *segmentKeysIndex, h int) int = s.offsets[h]
+//@ pure opaque func idxEnd(s *segmentKeysIndex, h int) int = ite(h + 1 < s.numKeys, s.offsets[h+1], s.numKeyBytes)
+//@ pure opaque func idxRank(s *segmentKeysIndex, h int) real = rank(s.data[idxBeg(s, h) : idxEnd(s, h)])
+//@ pure func idxOK(s *segmentKeysIndex, a *segment) bool = s != nil && s.srcKeyCount == segLen(a) && s.hop >= 1 &&
+//@     0 <= s.numKeys && s.numKeys <= len(s.offsets) && 0 <= s.numKeyBytes && s.numKeyBytes <= len(s.data) && len(s.data) < 4294967296 &&
+//@     (s.numKeys > 0 ==> (s.numKeys - 1) * s.hop < s.srcKeyCount) &&
+//@     (forall h int :: 0 <= h && h < s.numKeys ==> idxRank(s, h) == keyRank(a, h * s.hop)) &&
+//@     (forall h int :: 0 <= h && h < s.numKeys ==> 0 <= idxBeg(s, h) && idxBeg(s, h) <= idxEnd(s, h) && idxEnd(s, h) <= s.numKeyBytes)
+//@ pure func indexOK(a *segment) bool = a.index == nil || idxOK(a.index, a)
+
+//@ func (s *segmentKeysIndex) lookup(key []byte) (leftPos int, rightPos int)
+//@   props C14
+//@   ghost a *segment
+//@   requires segValid(a) && segSorted(a) && idxOK(s, a)
+//@   ensures @bounds 0 <= leftPos && leftPos <= rightPos && rightPos <= segLen(a)
+//@   ensures @left forall p int :: 0 <= p && p < leftPos ==> keyRank(a, p) < rank(key)
+//@   ensures @right forall p int :: rightPos <= p && p < segLen(a) ==> keyRank(a, p) > rank(key)
+//@   loop 1: invariant 0 <= i && i < j && j <= s.numKeys
+//@   loop 1: invariant idxRank(s, i) <= rank(key)
+//@   loop 1: invariant j < s.numKeys ==> idxRank(s, j) > rank(key)
+//@   loop 1: invariant j == s.numKeys ==> idxRank(s, s.numKeys - 1) >= rank(key)
+//@   loop 1: decreases j - i
+
+// ---- segment searches (C09, C14, C01, C10) -----------------------------------------
+
+//@ func (a *segment) findStartKeyInclusivePos(startKeyInclusive []byte) int
+//@   props C09 C14
+//@   requires segValid(a) && segSorted(a) && indexOK(a)
+//@   ensures @range 0 <= result && result <= segLen(a)
+//@   ensures @below forall p int :: 0 <= p && p < result ==> keyRank(a, p) < rank(startKeyInclusive)
+//@   ensures @above forall p int :: result <= p && p < segLen(a) ==> keyRank(a, p) >= rank(startKeyInclusive)
+//@   loop 1: invariant 0 <= i && i <= j && j <= segLen(a)
+//@   loop 1: invariant forall p int :: 0 <= p && p < i ==> keyRank(a, p) < rank(startKeyInclusive)
+//@   loop 1: invariant forall p int :: j <= p && p < segLen(a) ==> keyRank(a, p) > rank(startKeyInclusive)
+//@   loop 1: decreases j - i
+
+//@ func (a *segment) findKeyPos(key []byte) (int, error)
+//@   props C14 C01 C10
+//@   requires segValid(a) && segSorted(a) && indexOK(a)
+//@   ensures @noerr r1 == nil
+//@   ensures @found r0 >= 0 ==> r0 < segLen(a) && keyRank(a, r0) == rank(key)
+//@   ensures @absent r0 < 0 ==> (forall p int :: 0 <= p && p < segLen(a) ==> keyRank(a, p) != rank(key))
+//@   loop 1: invariant 0 <= i && i <= j && j <= segLen(a)
+//@   loop 1: invariant forall p int :: 0 <= p && p < i ==> keyRank(a, p) < rank(key)
+//@   loop 1: invariant forall p int :: j <= p && p < segLen(a) ==> keyRank(a, p) > rank(key)
+//@   loop 1: decreases j - i
